@@ -22,6 +22,7 @@ documented rule of DESIGN.md §3.2).  `//@item file | enum|struct | Name` extrac
 (attributes dropped; `//@derive X,Y` re-adds the named derives).  `//@include lib/x.rs` splices a shared file.
 """
 import hashlib
+import shutil
 import json
 import os
 import re
@@ -220,6 +221,8 @@ def build(unit_name, outdir, global_rw=()):
             cur.d['rw'].append(parse_rw(arg) + (key == 'rw',))
         elif key == 'builtin' and arg == 'map_or_else':
             cur.d['rw'].append(('@map_or_else', None, False))
+        elif key == 'builtin' and arg in ('optmap', 'resmap'):
+            cur.d['rw'].append(('@' + arg, None, True))
         elif key == 'builtin':
             if arg not in BUILTINS:
                 raise UnitError('%s: unknown builtin rewrite %s' % (tpath, arg))
@@ -283,7 +286,7 @@ def receiver_start(m, k):
                 j += 1
             if m[j] != '.':
                 break
-        elif depth == 0 and not (ch.isalnum() or ch in '_.:&?'):
+        elif depth == 0 and not (ch.isalnum() or ch in '_.:&?<>'):
             break
         i -= 1
     return i
@@ -335,15 +338,18 @@ def desugar_map_or_else(text):
         n += 1
 
 
-def desugar_option_map(text):
+def desugar_option_map(text, mode='asref'):
     """X.as_ref().map(|p| B)  ->  (match X.as_ref() { None => None, Some(p) => Some(B) })  — definition of Option::map;
-    applied only when the closure body mentions `self` (Verus rejects closures capturing `&mut self`)."""
+    applied only when the closure body mentions `self` (Verus rejects closures capturing `&mut self`).
+    mode 'asref': only receivers ending in .as_ref() / .ok();  'opt': any receiver, taken to be an Option;
+    'res': any receiver, taken to be a Result (Ok(p) => Ok(B), Err(e) => Err(e))."""
     from rsrc import find_closures, match_close
     n = 0
     start = 0
+    pat = r'\.(?:as_ref|ok)\(\)\s*\.(?:map|and_then)\(' if mode == 'asref' else r'\.(?:map|and_then)\('
     while True:
         m = mask(text)
-        mm = re.search(r'\.as_ref\(\)\s*\.(?:map|and_then)\(', m[start:])
+        mm = re.search(pat, m[start:])
         if not mm:
             return text, n
         k = start + mm.start()
@@ -351,18 +357,24 @@ def desugar_option_map(text):
         cl = match_close(m, op)
         args = text[op + 1:cl]
         cls = find_closures(mask(args))
-        if len(cls) != 1 or 'self' not in args:
+        if not cls or cls[0][0] != len(args) - len(args.lstrip()) or cls[0][3] < len(args.rstrip()) or 'self' not in args:
             start = op
             continue
         s1, p1, b1, e1 = cls[0]
         i = receiver_start(m, k)
-        recv = text[i + 1:k].strip() + '.as_ref()'
+        recv = text[i + 1:k].strip()
+        if mode == 'asref':
+            recv += re.match(r'\.(?:as_ref|ok)\(\)', m[k:]).group(0)
         is_and_then = 'and_then' in m[k:op]
-        new = '(match %s { None => None, Some(%s) => %s })' % (
-            recv, args[s1 + 1:p1].strip(), args[b1:e1].strip() if is_and_then else 'Some(%s)' % args[b1:e1].strip())
+        param = args[s1 + 1:p1].strip()
+        body = args[b1:e1].strip()
+        if mode == 'res':
+            new = '(match %s { Err(e) => Err(e), Ok(%s) => %s })' % (recv, param, body if is_and_then else 'Ok(%s)' % body)
+        else:
+            new = '(match %s { None => None, Some(%s) => %s })' % (recv, param, body if is_and_then else 'Some(%s)' % body)
         text = text[:i + 1] + new + text[cl + 1:]
         n += 1
-        start = i + 1 + len(new)
+        start = i + 1   # rescan inside the replacement: maps can nest
 
 
 def apply_rw(text, rws, where):
@@ -372,6 +384,12 @@ def apply_rw(text, rws, where):
             text, n = desugar_map_or_else(text)
             text, n2 = desugar_option_map(text)
             n_applied += n + n2
+            continue
+        if pat in ('@optmap', '@resmap'):
+            text, n = desugar_option_map(text, 'opt' if pat == '@optmap' else 'res')
+            if n == 0 and required:
+                raise LostAnchor('%s: builtin %s matches nothing' % (where, pat))
+            n_applied += n
             continue
         new, n = re.subn(pat, repl, text)
         if n == 0 and required:
@@ -669,19 +687,16 @@ def scan_trusted(path):
 def run_unit(unit_name, tier='quick', keep=False):
     """build + verify one unit.  Returns dict(meta, result, analysis, trusted) or raises LostAnchor/UnitError."""
     outdir = os.path.join(SCRATCH, 'verus-%d' % os.getpid())
-    path, meta = build(unit_name, outdir)
-    rlimit = None if tier == 'quick' else 40
-    r = run_verus(path, rlimit=rlimit)
-    a = analyse(meta, r)
-    trusted = scan_trusted(path)
-    gen_sha = hashlib.sha256(open(path, 'rb').read()).hexdigest()
-    if keep or os.environ.get('VERIF_KEEP'):
-        pass
-    else:
-        try:
-            os.remove(path)
-            os.rmdir(outdir)
-        except OSError:
-            pass
+    keep = keep or bool(os.environ.get('VERIF_KEEP'))
+    try:
+        path, meta = build(unit_name, outdir)
+        rlimit = None if tier == 'quick' else 40
+        r = run_verus(path, rlimit=rlimit)
+        a = analyse(meta, r)
+        trusted = scan_trusted(path)
+        gen_sha = hashlib.sha256(open(path, 'rb').read()).hexdigest()
+    finally:
+        if not keep:
+            shutil.rmtree(outdir, ignore_errors=True)
     return dict(meta=meta, run=dict(cmd=r['cmd'], wall_s=r['wall_s'], rc=r['rc']), analysis=a, trusted=trusted,
                 generated_sha256=gen_sha, diags=[d for d in r['diags'] if d.get('level') == 'error'][:40])
